@@ -27,6 +27,25 @@ class HarnessAssumption(BaseException):
     with an internal error (exit 2) - never with a VIOLATION line"""
 
 
+class ScriptMismatch(Exception):
+    pass
+
+
+def assumption_check(util):
+    """in a fresh process: an accepted candidate costs exactly one call, and
+    two invocations ask for the same number of bytes"""
+    for n in (5, 300, 70000, (1 << 160) + 7):
+        recs = []
+        for _ in range(2):
+            rec = []
+            util.randrange(n, lambda k, rec=rec: (rec.append(k),
+                                                  b"\x00" * k)[1])
+            recs.append(rec)
+        if len(recs[0]) != 1 or recs[0] != recs[1]:
+            raise HarnessAssumption("randrange(%d) asked for %r bytes"
+                                    % (n, recs))
+
+
 class Script(object):
     """Environment: answers draw i with answers[i]; asks the explorer (by
     raising Exhausted) when the script is used up."""
@@ -42,8 +61,11 @@ class Script(object):
             raise Exhausted(nbytes, i)
         a = self.answers[i]
         if len(a) != nbytes:
-            raise HarnessAssumption("draw %d asked %d bytes, script has %d"
-                                    % (i, nbytes, len(a)))
+            # the call pattern was verified on a fresh process
+            # (assumption_check); a different request size now means that the
+            # request depends on what happened before
+            raise ScriptMismatch("draw %d asked %d bytes, the source was "
+                                 "asked %d before" % (i, nbytes, len(a)))
         return a
 
 
@@ -146,6 +168,7 @@ def shard_orders(arg):
     orders, bound, cond = arg
     from ecdsa import util
     sh = Shard()
+    assumption_check(util)
     st = tr = ex = 0
     for n in orders:
         need = run_randrange(util, n, [])
